@@ -22,6 +22,8 @@ EXPLANATION = (
     'preconditioned_grad and update_grad nothing may write into storage aliased with a module gradient (abstract interpretation with '
     'alias labels, KAISA and GPT-NeoX layers).  That nu is numerically equal on all ranks and the bound as an inequality on values are not decided.')
 
+NOT_DECIDED = 'that nu is numerically equal on all ranks; the bound as an inequality on values'
+
 
 def rule_def_flags(ctx: Ctx, funcs: list[str]) -> None:
     p = ctx.prog
